@@ -7,6 +7,7 @@ import (
 	"path/filepath"
 	"strings"
 	"time"
+	"unicode/utf8"
 
 	"verif/internal/core"
 )
@@ -150,7 +151,9 @@ func SelfTest(seed uint64, nSpecs int) int {
 		args = append(args, "-o", filepath.Join(outDir, "app"), filepath.Join(projDir, u.Project.Entry))
 		env := append(os.Environ(), "FERRET_LIBS_PATH="+b.Libs, "FERRET_AS="+b.Stub, "FERRET_LD="+b.Stub, "AS=", "LD=")
 		pr := core.RunProc(60*time.Second, filepath.Join(pd, "u0"), env, nil, b.Plain, args...)
-		po := Observable{Exit: pr.ExitCode, Stdout: Normalise(string(pr.Stdout), filepath.Join(pd, "u0")), Stderr: Normalise(string(pr.Stderr), filepath.Join(pd, "u0")), Files: map[string]string{}}
+		// the simulated run's output travels through JSON (which replaces every invalid UTF-8 byte by U+FFFD) before colour codes are stripped: do the same here, in the same order
+		po := Observable{Exit: pr.ExitCode, Stdout: Normalise(jsonValid(string(pr.Stdout)), filepath.Join(pd, "u0")),
+			Stderr: Normalise(jsonValid(string(pr.Stderr)), filepath.Join(pd, "u0")), Files: map[string]string{}}
 		filepath.Walk(outDir, func(p string, info os.FileInfo, err error) error {
 			if err != nil || info.IsDir() {
 				return nil
@@ -168,6 +171,10 @@ func SelfTest(seed uint64, nSpecs int) int {
 			diffs = nil
 		}
 		if len(diffs) > 0 {
+			if os.Getenv("VERIF_DEBUG") != "" {
+				os.WriteFile(fmt.Sprintf("/var/tmp/mut/fid-%d-plain.txt", i), []byte(po.Stderr), 0644)
+				os.WriteFile(fmt.Sprintf("/var/tmp/mut/fid-%d-sim.txt", i), []byte(so.Stderr), 0644)
+			}
 			fidBad++
 			if fidBad <= 3 {
 				fmt.Fprintf(os.Stderr, "selftest: REWRITER CHANGES BEHAVIOUR in case %d: %v\n", i, diffs)
@@ -210,6 +217,21 @@ func SelfTest(seed uint64, nSpecs int) int {
 		return 2
 	}
 	return 0
+}
+
+// jsonValid replaces every invalid UTF-8 byte by U+FFFD, one for one, as encoding/json does.
+func jsonValid(s string) string {
+	var b strings.Builder
+	for i := 0; i < len(s); {
+		r, n := utf8.DecodeRuneInString(s[i:])
+		if r == utf8.RuneError && n == 1 {
+			b.WriteRune(utf8.RuneError)
+		} else {
+			b.WriteString(s[i : i+n])
+		}
+		i += n
+	}
+	return b.String()
 }
 
 func pick(a, b, ref string) string {
